@@ -1,6 +1,7 @@
 package props
 
 import (
+	"fmt"
 	"strings"
 	"time"
 
@@ -61,6 +62,15 @@ func runC08(w *mc.Worker) {
 	runVarSeqSpace(w, "vars-L2", 2, 2, func(c *seqCase, vars map[string]string, bal env.Bal) {
 		if strings.Contains(c.Text, "save") {
 			judgeSeqCase(w, c, vars, bal, owns, nontriv, true)
+		}
+	})
+	el := 2
+	if w.Tier == "thorough" {
+		el = 3
+	}
+	runEdgeSeqSpace(w, fmt.Sprintf("edge-L%d", el), 2, el, func(c *seqCase, bal env.Bal) {
+		if strings.Contains(c.Text, "save") {
+			body(c, bal)
 		}
 	})
 	sheetsQ := &sheetDom{A: bigs(0, 1, 3, 6, -2), B: bigs(0, 2, -2), X: bigs(0, 2)}
